@@ -36,6 +36,20 @@ theorem trS_p2p (c : ClassD) : ∀ stmt, trS c (p2p stmt) = trS c stmt := by
   | arm v g body rest ihb ihr => cases g <;> simp [p2p, trS, ihb, ihr]
   | dflt body ih => simp [p2p, trS, ih]
 
+theorem isSkipS_p2p (b : Stmt) : isSkipS (p2p b) = isSkipS b := by cases b <;> rfl
+
+theorem laterDistinct_p2p (k : Int) : ∀ stmt, laterDistinct k (p2p stmt) = laterDistinct k stmt := by
+  intro stmt
+  induction stmt with
+  | arm v g body rest _ ihr => simp only [p2p, laterDistinct, ihr]
+  | dflt b _ => simp only [p2p, laterDistinct, isSkipS_p2p]
+  | _ => rfl
+
+theorem guardOK_p2p (c : ClassD) (v : Expr) (g : Option Expr) (rest : Stmt) : guardOK c v g (p2p rest) = guardOK c v g rest := by
+  cases g with
+  | none => rfl
+  | some ge => cases v <;> simp [guardOK, laterDistinct_p2p]
+
 theorem okSg_p2p (c : ClassD) : ∀ stmt, okSg false c stmt = true → okSg true c (p2p stmt) = true := by
   intro stmt
   induction stmt with
@@ -57,7 +71,7 @@ theorem okSg_p2p (c : ClassD) : ∀ stmt, okSg false c stmt = true → okSg true
     rw [p2p, okSg, h.1.1, h.1.2, ih h.2]; rfl
   | arm v g body rest ihb ihr =>
     intro h; rw [okSg] at h; simp only [Bool.and_eq_true] at h
-    rw [p2p, okSg, h.1.1.1.1, h.1.1.1.2, h.1.1.2, ihb h.1.2, ihr h.2]; rfl
+    rw [p2p, okSg, guardOK_p2p, h.1.1.1.1, h.1.1.1.2, h.1.1.2, ihb h.1.2, ihr h.2]; rfl
   | dflt body ih => intro h; rw [okSg] at h; rw [p2p, okSg]; exact ih h
 
 /-- evaluation only looks at the wires the expression reads -/
@@ -205,9 +219,8 @@ theorem p2p_exec (c : ClassD) (w0 : String → Option Int) (P : List String) :
     · simp at he
   | arm v g body rest ihb ihr =>
     intro sv s s' sF hok hg hp he hs
-    rw [okSg] at hok; simp only [Bool.and_eq_true, Option.isNone_iff_eq_none] at hok
-    obtain ⟨⟨⟨⟨hgn, _⟩, _⟩, hokb⟩, hokr⟩ := hok
-    subst hgn
+    rw [okSg] at hok; simp only [Bool.and_eq_true] at hok
+    obtain ⟨⟨⟨⟨_, _⟩, _⟩, hokb⟩, hokr⟩ := hok
     cases sv with
     | none => simp [execD] at he
     | some x =>
@@ -218,8 +231,23 @@ theorem p2p_exec (c : ClassD) (w0 : String → Option Int) (P : List String) :
         rw [sh_eval hs v (fun n hn => hg n (by simp [getsS, hn]))] at hpv
         split at he
         · rename_i hx
-          obtain ⟨sF1, e1, hs1⟩ := ihb none s s' sF hokb (fun n hn => hg n (by simp [getsS, hn])) (fun n hn => hp n (by simp [putsS, hn])) he hs
-          exact ⟨sF1, by simp [p2p, execD, hpv, hx, e1], hs1⟩
+          cases g with
+          | none =>
+            obtain ⟨sF1, e1, hs1⟩ := ihb none s s' sF hokb (fun n hn => hg n (by simp [getsS, hn])) (fun n hn => hp n (by simp [putsS, hn])) he hs
+            exact ⟨sF1, by simp [p2p, execD, hpv, hx, e1], hs1⟩
+          | some ge =>
+            simp only at he
+            split at he
+            · rename_i gv hgv
+              rw [sh_eval hs ge (fun n hn => hg n (by simp [getsS, hn]))] at hgv
+              split at he
+              · rename_i hgt
+                obtain ⟨sF1, e1, hs1⟩ := ihb none s s' sF hokb (fun n hn => hg n (by simp [getsS, hn])) (fun n hn => hp n (by simp [putsS, hn])) he hs
+                exact ⟨sF1, by simp [p2p, execD, hpv, hx, hgv, hgt, e1], hs1⟩
+              · rename_i hgt
+                obtain ⟨sF1, e1, hs1⟩ := ihr (some x) s s' sF hokr (fun n hn => hg n (by simp [getsS, hn])) (fun n hn => hp n (by simp [putsS, hn])) he hs
+                exact ⟨sF1, by simp [p2p, execD, hpv, hx, hgv, hgt, e1], hs1⟩
+            · simp at he
         · rename_i hx
           obtain ⟨sF1, e1, hs1⟩ := ihr (some x) s s' sF hokr (fun n hn => hg n (by simp [getsS, hn])) (fun n hn => hp n (by simp [putsS, hn])) he hs
           exact ⟨sF1, by simp [p2p, execD, hpv, hx, e1], hs1⟩
